@@ -984,3 +984,381 @@ pub fn fdrand(args: &[String]) {
     }
     write_json(&args[3], &json!({"frames": idx["frames"].as_array().unwrap().len(), "runs": runs, "calls": calls, "mismatches": bad, "first": mism, "modes": modes, "samples": samples}));
 }
+
+// ---------------------------------------------------------------------------------------------
+// C10: multi-frame calls and the exhaustive truncation sweep
+// ---------------------------------------------------------------------------------------------
+
+fn skippable(magic_low: u8, payload: &[u8], declared: u32) -> Vec<u8> {
+    let mut v = vec![0x50 + magic_low, 0x2A, 0x4D, 0x18];
+    v.extend_from_slice(&declared.to_le_bytes());
+    v.extend_from_slice(payload);
+    v
+}
+
+/// mfitems <out.json>: the item alphabet of MultiFrame.tla with bytes
+pub fn mfitems(args: &[String]) {
+    let set = frame_set("quick");
+    let get = |n: &str| build(set.iter().find(|s| s.name == n).unwrap());
+    let mut items: Vec<Value> = vec![];
+    let mut push = |name: &str, kind: &str, bytes: Vec<u8>, content: Vec<u8>, err: &str, tail: bool| {
+        items.push(json!({"name": name, "kind": kind, "len": bytes.len(), "size": content.len(), "err": err, "tail": tail, "hex": hex(&bytes), "content_hex": hex(&content)}));
+    };
+    let f1 = get("single5");
+    let f2 = get("rle3_cks");
+    let f3 = get("empty_last");
+    let f4 = get("reach");
+    push("single5", "frame", f1.bytes.clone(), f1.content.clone(), "", false);
+    push("rle3_cks", "frame", f2.bytes.clone(), f2.content.clone(), "", false);
+    push("empty_last", "frame", f3.bytes.clone(), f3.content.clone(), "", false);
+    push("reach", "frame", f4.bytes.clone(), f4.content.clone(), "", false);
+    push("skip0", "skip", skippable(0, &[], 0), vec![], "", false);
+    push("skip7", "skip", skippable(0xF, &[1, 2, 3, 4, 5, 6, 7], 7), vec![], "", false);
+    push("skip_trunc", "bad", skippable(3, &[1, 2, 3], 7), vec![], "skip", true);
+    push("skip_hdr_trunc", "bad", skippable(3, &[], 7)[..6].to_vec(), vec![], "hdr", true);
+    push("garbage2", "bad", vec![0xAA, 0xBB], vec![], "hdr", true);
+    push("garbage9", "bad", vec![0xAA, 0xBB, 0xCC, 0xDD, 1, 2, 3, 4, 5], vec![], "hdr", false);
+    let ft = f2.bytes[..f2.bytes.len() - 2].to_vec();
+    push("frame_trunc_cksum", "bad", ft, vec![], "cksum", true);
+    let ft2 = f4.bytes[..f4.bytes.len() - 20].to_vec();
+    push("frame_trunc_body", "bad", ft2, vec![], "body", true);
+    let fi = get("probe_treeless");
+    push("frame_invalid_block", "bad", fi.bytes.clone(), vec![], "body", false);
+    write_json(&args[0], &json!({ "items": items }));
+}
+
+/// mfexec <items.json> <cases.ndjson> <report.json>
+pub fn mfexec(args: &[String]) {
+    quiet_panics();
+    let items: Value = serde_json::from_str(&std::fs::read_to_string(&args[0]).unwrap()).unwrap();
+    let items: Vec<(Vec<u8>, Vec<u8>)> = items["items"].as_array().unwrap().iter().map(|i| (unhex(i["hex"].as_str().unwrap()), unhex(i["content_hex"].as_str().unwrap()))).collect();
+    let f = std::io::BufReader::new(std::fs::File::open(&args[1]).unwrap());
+    let mut dec = FrameDecoder::new();
+    let (mut n, mut bad, mut drift) = (0u64, 0u64, 0u64);
+    let mut mism: Vec<Value> = vec![];
+    let mut classes = std::collections::BTreeMap::<String, u64>::new();
+    let mut samples: Vec<Value> = vec![];
+    for line in f.lines() {
+        let case: Value = serde_json::from_str(&line.unwrap()).unwrap();
+        n += 1;
+        let seq: Vec<usize> = case["items"].as_array().unwrap().iter().map(|x| x.as_u64().unwrap() as usize - 1).collect();
+        let cap = case["cap"].as_u64().unwrap() as usize;
+        let exp_ok = case["result"][0] == "ok";
+        let mut input = vec![];
+        let mut content = vec![];
+        for &i in &seq {
+            input.extend_from_slice(&items[i].0);
+            content.extend_from_slice(&items[i].1);
+        }
+        *classes.entry(if exp_ok { "ok".to_string() } else { case["result"][1].as_str().unwrap().to_string() }).or_insert(0) += 1;
+        let mut errs: Vec<String> = vec![];
+        let mut drifts: Vec<String> = vec![];
+        let r = std::panic::catch_unwind(std::panic::AssertUnwindSafe(|| {
+            // decode_all into a slice of exactly `cap` bytes, guarded by sentinels on both sides
+            let mut buf = vec![0xEEu8; cap + 16];
+            let r = dec.decode_all(&input, &mut buf[8..8 + cap]);
+            if buf[..8].iter().any(|b| *b != 0xEE) || buf[8 + cap..].iter().any(|b| *b != 0xEE) {
+                errs.push("decode_all wrote outside the target".into());
+            }
+            match (&r, exp_ok) {
+                (Ok(w), true) => {
+                    if *w != content.len() || buf[8..8 + *w] != content[..] {
+                        errs.push(format!("decode_all returned {w}, content has {} bytes (or bytes differ)", content.len()));
+                    }
+                }
+                (Ok(w), false) => errs.push(format!("decode_all returned Ok({w}) where {} is specified", case["result"])),
+                (Err(e), true) => errs.push(format!("decode_all failed ({}) on well-formed input that fits", err_class(e))),
+                (Err(e), false) => {
+                    if err_class(e) != case["result"][1].as_str().unwrap() {
+                        drifts.push(format!("error class {} model {}", err_class(e), case["result"][1]));
+                    }
+                }
+            }
+            // decode_all_to_vec: extra capacity of exactly cap
+            let mut v: Vec<u8> = Vec::with_capacity(3 + cap);
+            v.extend_from_slice(&[1, 2, 3]);
+            if v.capacity() == 3 + cap {
+                let ptr = v.as_ptr();
+                let r2 = dec.decode_all_to_vec(&input, &mut v);
+                if v.capacity() != 3 + cap || v.as_ptr() != ptr {
+                    errs.push("decode_all_to_vec reallocated the vector".into());
+                }
+                if v[..3] != [1, 2, 3] {
+                    errs.push("decode_all_to_vec changed existing elements".into());
+                }
+                match (&r2, exp_ok) {
+                    (Ok(()), true) => {
+                        if v[3..] != content[..] {
+                            errs.push(format!("decode_all_to_vec: vector has {} new bytes, content {}", v.len() - 3, content.len()));
+                        }
+                    }
+                    (Ok(()), false) => errs.push(format!("decode_all_to_vec returned Ok where {} is specified", case["result"])),
+                    (Err(e), true) => errs.push(format!("decode_all_to_vec failed ({}) on well-formed input that fits", err_class(e))),
+                    (Err(_), false) => {
+                        if v.len() != 3 {
+                            errs.push(format!("decode_all_to_vec changed the vector length to {} on failure", v.len()));
+                        }
+                    }
+                }
+            }
+        }));
+        if let Err(p) = r {
+            errs.push(format!("panic: {}", panic_msg(p)));
+            dec = FrameDecoder::new();
+        }
+        if !drifts.is_empty() {
+            drift += 1;
+        }
+        if !errs.is_empty() {
+            bad += 1;
+            if mism.len() < 15 {
+                mism.push(json!({"case": case, "errors": errs, "input_hex": hex(&input)}));
+            }
+        }
+        if samples.len() < 3 && seq.len() == 3 {
+            samples.push(case.clone());
+        }
+    }
+    write_json(&args[2], &json!({"cases": n, "mismatches": bad, "first": mism, "drifted": drift, "classes": classes, "samples": samples}));
+}
+
+/// truncsweep <frames.json> <rows.ndjson> <report.json>: every source length 0..=len of every frame through four entry points
+pub fn truncsweep(args: &[String]) {
+    use std::io::Write;
+    quiet_panics();
+    let frames = load_frames(&args[0]);
+    let mut w = std::io::BufWriter::new(std::fs::File::create(&args[1]).unwrap());
+    let mut n = 0u64;
+    let mut panics: Vec<Value> = vec![];
+    let mut dec = FrameDecoder::new();
+    for (fi, fr) in frames.iter().enumerate() {
+        for cut in 0..=fr.len {
+            let data = &fr.bytes[..cut];
+            for entry in ["blocks", "stream", "slice", "all"] {
+                n += 1;
+                let r = std::panic::catch_unwind(std::panic::AssertUnwindSafe(|| -> (String, String, bool, Vec<u8>, u64) {
+                    let mut delivered: Vec<u8> = vec![];
+                    match entry {
+                        "blocks" => {
+                            let mut src = Src { data: data.to_vec(), pos: 0, chunk: 0 };
+                            if let Err(e) = dec.reset(&mut src) {
+                                return ("err".into(), err_class(&e), false, delivered, 0);
+                            }
+                            let r = dec.decode_blocks(&mut src, BlockDecodingStrategy::All);
+                            delivered.extend(dec.collect().unwrap_or_default());
+                            match r {
+                                Ok(_) => ("ok".into(), "".into(), dec.is_finished(), delivered, dec.bytes_read_from_source()),
+                                Err(e) => ("err".into(), err_class(&e), dec.is_finished(), delivered, dec.bytes_read_from_source()),
+                            }
+                        }
+                        "stream" => {
+                            let src = Src { data: data.to_vec(), pos: 0, chunk: 3 };
+                            let mut sd = match StreamingDecoder::new_with_decoder(src, &mut dec) {
+                                Ok(x) => x,
+                                Err(e) => return ("err".into(), err_class(&e), false, delivered, 0),
+                            };
+                            let mut buf = [0u8; 700];
+                            loop {
+                                match sd.read(&mut buf) {
+                                    Ok(0) => break,
+                                    Ok(k) => delivered.extend_from_slice(&buf[..k]),
+                                    Err(e) => {
+                                        let cls = e.get_ref().and_then(|r| r.downcast_ref::<FrameDecoderError>()).map(err_class).unwrap_or_else(|| "io".into());
+                                        let fin = sd.decoder.is_finished();
+                                        let c = sd.decoder.bytes_read_from_source();
+                                        return ("err".into(), cls, fin, delivered, c);
+                                    }
+                                }
+                            }
+                            let fin = sd.decoder.is_finished();
+                            let c = sd.decoder.bytes_read_from_source();
+                            ("ok".into(), "".into(), fin, delivered, c)
+                        }
+                        "slice" => {
+                            let mut d2 = FrameDecoder::new();
+                            let mut pos = 0usize;
+                            let mut tgt = vec![0u8; 4096];
+                            let mut idle = 0;
+                            loop {
+                                match d2.decode_from_to(&data[pos..], &mut tgt) {
+                                    Err(e) => return ("err".into(), err_class(&e), d2.is_finished() && pos > 0, delivered, pos as u64),
+                                    Ok((rd, wr)) => {
+                                        pos = (pos + rd).min(data.len());
+                                        delivered.extend_from_slice(&tgt[..wr]);
+                                        if rd == 0 && wr == 0 {
+                                            idle += 1;
+                                            if idle > 2 {
+                                                break;
+                                            }
+                                        }
+                                    }
+                                }
+                            }
+                            ("ok".into(), "".into(), d2.is_finished(), delivered, d2.bytes_read_from_source())
+                        }
+                        _ => {
+                            let mut out = vec![0u8; fr.content.len() + 10];
+                            match dec.decode_all(data, &mut out) {
+                                Ok(wn) => ("ok".into(), "".into(), wn > 0 || data.is_empty() || dec.is_finished(), out[..wn].to_vec(), 0),
+                                Err(e) => ("err".into(), err_class(&e), false, vec![], 0),
+                            }
+                        }
+                    }
+                }));
+                match r {
+                    Err(p) => {
+                        panics.push(json!({"frame": fi + 1, "cut": cut, "entry": entry, "panic": panic_msg(p)}));
+                        dec = FrameDecoder::new();
+                        serde_json::to_writer(&mut w, &json!({"f": fi + 1, "cut": cut, "entry": entry, "res": "panic", "cls": "", "fin": false, "delivered": 0, "prefix": true, "whole": false, "consumed": 0})).unwrap();
+                    }
+                    Ok((res, cls, fin, delivered, consumed)) => {
+                        serde_json::to_writer(&mut w, &json!({"f": fi + 1, "cut": cut, "entry": entry, "res": res, "cls": cls, "fin": fin, "delivered": delivered.len(),
+                            "prefix": fr.content.starts_with(&delivered), "whole": delivered == fr.content, "consumed": consumed})).unwrap();
+                    }
+                }
+                w.write_all(b"\n").unwrap();
+            }
+        }
+    }
+    w.flush().unwrap();
+    write_json(&args[2], &json!({"rows": n, "panics": panics}));
+}
+
+/// realtrunc <index.json> <max frame len> <report.json>: every strict prefix of every small real frame, four entry points,
+/// judged at property level: an error (or no progress for the slice interface), never finished, delivered bytes a prefix.
+pub fn realtrunc(args: &[String]) {
+    quiet_panics();
+    let idx: Value = serde_json::from_str(&std::fs::read_to_string(&args[0]).unwrap()).unwrap();
+    let maxlen: usize = args[1].parse().unwrap();
+    let (mut nframes, mut cases, mut bad) = (0u64, 0u64, 0u64);
+    let mut mism: Vec<Value> = vec![];
+    let mut dec = FrameDecoder::new();
+    dec.set_max_window_size(1 << 31);
+    for fr in idx["frames"].as_array().unwrap() {
+        let frame = std::fs::read(fr["frame"].as_str().unwrap()).unwrap();
+        if frame.len() > maxlen {
+            continue;
+        }
+        let content = std::fs::read(fr["content"].as_str().unwrap()).unwrap();
+        let flen = match walk_frame(&frame) {
+            Ok(l) => l["len"].as_u64().unwrap() as usize,
+            Err(_) => continue,
+        };
+        nframes += 1;
+        for cut in 0..flen {
+            let data = &frame[..cut];
+            for entry in ["blocks", "stream", "slice", "all"] {
+                cases += 1;
+                let r = std::panic::catch_unwind(std::panic::AssertUnwindSafe(|| -> Result<(), String> {
+                    let mut delivered: Vec<u8> = vec![];
+                    let (errored, fin) = match entry {
+                        "blocks" => {
+                            let mut src = Src { data: data.to_vec(), pos: 0, chunk: 0 };
+                            match dec.reset(&mut src) {
+                                Err(_) => (true, false),
+                                Ok(()) => {
+                                    let r = dec.decode_blocks(&mut src, BlockDecodingStrategy::UptoBlocks(1));
+                                    let r = if r.is_ok() && !dec.is_finished() { dec.decode_blocks(&mut src, BlockDecodingStrategy::All) } else { r };
+                                    delivered.extend(dec.collect().unwrap_or_default());
+                                    (r.is_err(), dec.is_finished())
+                                }
+                            }
+                        }
+                        "stream" => {
+                            let src = Src { data: data.to_vec(), pos: 0, chunk: 5 };
+                            match StreamingDecoder::new_with_decoder(src, &mut dec) {
+                                Err(_) => (true, false),
+                                Ok(mut sd) => {
+                                    let mut buf = [0u8; 997];
+                                    let mut e = false;
+                                    loop {
+                                        match sd.read(&mut buf) {
+                                            Ok(0) => break,
+                                            Ok(k) => delivered.extend_from_slice(&buf[..k]),
+                                            Err(_) => {
+                                                e = true;
+                                                break;
+                                            }
+                                        }
+                                    }
+                                    (e, sd.decoder.is_finished())
+                                }
+                            }
+                        }
+                        "slice" => {
+                            let mut d2 = FrameDecoder::new();
+                            d2.set_max_window_size(1 << 31);
+                            let mut pos = 0usize;
+                            let mut tgt = vec![0u8; 8192];
+                            let mut idle = 0;
+                            let mut e = false;
+                            let mut started = false;
+                            loop {
+                                match d2.decode_from_to(&data[pos..], &mut tgt) {
+                                    Err(_) => {
+                                        e = true;
+                                        break;
+                                    }
+                                    Ok((rd, wr)) => {
+                                        started = true;
+                                        if rd > data.len() - pos {
+                                            return Err(format!("decode_from_to reports {rd} consumed of {} given", data.len() - pos));
+                                        }
+                                        pos += rd;
+                                        delivered.extend_from_slice(&tgt[..wr]);
+                                        if rd == 0 && wr == 0 {
+                                            idle += 1;
+                                            if idle > 2 {
+                                                break;
+                                            }
+                                        }
+                                    }
+                                }
+                            }
+                            // the slice interface reports truncation as "no progress", not as an error
+                            (true || e, started && d2.is_finished())
+                        }
+                        _ => {
+                            let mut out = vec![0u8; content.len() + 10];
+                            match dec.decode_all(data, &mut out) {
+                                Ok(w) => {
+                                    if cut > 0 {
+                                        return Err(format!("decode_all returned Ok({w}) on a strict prefix"));
+                                    }
+                                    (true, false)
+                                }
+                                Err(_) => (true, false),
+                            }
+                        }
+                    };
+                    if !errored {
+                        return Err("no error on a strict prefix".into());
+                    }
+                    if fin {
+                        return Err("finished on a strict prefix".into());
+                    }
+                    if !content.starts_with(&delivered) {
+                        return Err("delivered bytes are not a prefix of the content".into());
+                    }
+                    Ok(())
+                }));
+                let e = match r {
+                    Err(p) => {
+                        dec = FrameDecoder::new();
+                        dec.set_max_window_size(1 << 31);
+                        Some(format!("panic: {}", panic_msg(p)))
+                    }
+                    Ok(Err(e)) => Some(e),
+                    Ok(Ok(())) => None,
+                };
+                if let Some(e) = e {
+                    bad += 1;
+                    if mism.len() < 10 {
+                        mism.push(json!({"frame": fr["name"], "frame_path": fr["frame"], "cut": cut, "entry": entry, "error": e}));
+                    }
+                }
+            }
+        }
+    }
+    write_json(&args[2], &json!({"frames": nframes, "cases": cases, "mismatches": bad, "first": mism}));
+}
